@@ -216,6 +216,15 @@ func main() {
 			for _, st := range []*selgen.Style{selgen.PlainStyle(), selgen.DenseStyle(), selgen.RandomStyle(rnd)} {
 				d.expr(selgen.Join(selgen.Tokens(ast, st), st), "tlc")
 			}
+			// systematic token-level damage of the plain rendering: every proper prefix and every
+			// single dropped token (mostly rejected texts, for the Validate == Parse clause)
+			pst := selgen.PlainStyle()
+			toks := selgen.Tokens(ast, pst)
+			for i := 0; i < len(toks); i++ {
+				d.expr(selgen.Join(toks[:i], pst), "tlc-prefix")
+				drop := append(append([]string{}, toks[:i]...), toks[i+1:]...)
+				d.expr(selgen.Join(drop, pst), "tlc-drop")
+			}
 		}
 	}
 	per := 40
